@@ -45,8 +45,11 @@ Next ==
     \/ n = 2 /\ AProduct(1)
     \/ n = 3 /\ AEvaluate(2, LatticeSeq(d0), FALSE, "evaluate_ln")
     \/ n = 4 /\ IF IsMeasure(heap[2]) THEN AQuery(2, "log_integral") ELSE Nop
+    \* an in-place operation on the RESULT: the operand (object 1) must not notice (final sweep of the replay, Prop_Frame)
+    \/ n = 5 /\ IF IsMeasure(heap[2]) THEN ANormalize(2) ELSE Nop
+    \/ n = 6 /\ IF IsMeasure(heap[1]) THEN AQuery(1, "log_integral") ELSE Nop
 
-Done == n = 5
+Done == n = 7
 Inv_Export == Export(Done)
 
 Spec == Init /\ [][Next]_vars
